@@ -16,6 +16,9 @@ CLAIMED = {
     "C03": ("bounded symbolic model checking of every list command through the real dispatcher on lists of symbolic length (<=3 quick, <=4 thorough) "
             "with symbolic one-byte elements and unconstrained int64 index/count/rank arguments, against a Go-slice model of t_list.c plus the "
             "linked-list representation invariant (inductive step within the size bound)", "5/C03"),
+    "C04": ("bounded symbolic model checking of the hash commands through the real dispatcher: hashes over a 3-name pool with symbolic membership and "
+            "values, HSET/HMSET/HSETNX/HDEL and all read commands against a map model of t_hash.c, HINCRBY for all int64 old values and increments with "
+            "exact overflow, HRANDFIELD result shape for counts -3..3 (rand = round-robin from an arbitrary start) and extreme counts", "5/C04"),
     "C18": ("bounded symbolic model checking: the real bitMath.go kernels are executed symbolically from go/ssa over a 10-byte symbolic array "
             "with all offsets/widths and compared by the solver with a big-endian bit-vector reference", "5/C18"),
 }
